@@ -12,8 +12,9 @@ pub struct DirectSink {
     /// (offset, len) of every write_all call
     pub calls: Vec<(usize, usize)>,
     pub fail_at: Option<usize>,
-    /// reject the n-th call (0-based) outright, whatever its length
+    /// reject the n-th call (0-based), after accepting `partial` bytes of it
     pub reject_call: Option<usize>,
+    pub partial: usize,
     pub fail_flush: bool,
     pub flushes: usize,
     pub failed: bool,
@@ -23,6 +24,8 @@ impl WriteNoStd for DirectSink {
         let idx = self.calls.len();
         self.calls.push((self.out.len(), buf.len()));
         if self.reject_call == Some(idx) {
+            let take = self.partial.min(buf.len());
+            self.out.extend_from_slice(&buf[..take]);
             self.failed = true;
             return Err(ser::Error::WriteError);
         }
@@ -66,11 +69,14 @@ impl io::Write for StdSink {
             self.calls.push((buf.len(), -1));
             return Err(io::Error::new(io::ErrorKind::Interrupted, "intr"));
         }
-        if self.zero_at == Some(self.out.len()) {
-            self.calls.push((buf.len(), 0));
-            return Ok(0);
-        }
         let mut take = buf.len();
+        if let Some(k) = self.zero_at {
+            if self.out.len() >= k {
+                self.calls.push((buf.len(), 0));
+                return Ok(0);
+            }
+            take = take.min(k - self.out.len());
+        }
         if !self.chunks.is_empty() {
             take = take.min(self.chunks[self.calls.len() % self.chunks.len()].max(1));
         }
